@@ -144,6 +144,76 @@ fn join_mode(wseed: u64) {
     println!("ok join workload_seed={} chunks={} prefix={}", wseed, chunks, prefix);
 }
 
+/// what one thread does with its clone of an XOF reader or hasher: a fixed, seeded sequence of reads / updates
+fn clone_reader_program(mut r: blake3::OutputReader, seed: u64) -> Vec<Vec<u8>> {
+    let mut s = seed;
+    let mut out = Vec::new();
+    for _ in 0..(5 + splitmix(&mut s) % 4) {
+        match splitmix(&mut s) % 5 {
+            0 => r.set_position(splitmix(&mut s) % 400),
+            1 => r.set_position(r.position() & !63),
+            _ => {}
+        }
+        let mut x = vec![0u8; 1 + (splitmix(&mut s) % 90) as usize];
+        r.fill(&mut x);
+        out.push(x);
+    }
+    out
+}
+
+fn clone_hasher_program(mut h: blake3::Hasher, seed: u64) -> Vec<Vec<u8>> {
+    let mut s = seed;
+    let mut out = Vec::new();
+    for _ in 0..3 {
+        h.update(&bytes(splitmix(&mut s), (splitmix(&mut s) % 1500) as usize));
+        out.push(h.finalize().as_bytes().to_vec());
+    }
+    out
+}
+
+/// C18: clones are independent instances. One reader (hasher) with a history is cloned, every thread gets a clone
+/// and uses it in its own way; each thread's results must equal those of the same program run alone on a clone.
+fn clones_mode(wseed: u64, threads: usize) {
+    let mut s = wseed;
+    let m = bytes(wseed, 100 + (splitmix(&mut s) % 2000) as usize);
+    let key: [u8; 32] = bytes(wseed ^ 5, 32).try_into().unwrap();
+    let mut h = blake3::Hasher::new_keyed(&key);
+    h.update(&m);
+    let mut r = h.finalize_xof();
+    // history in the object before it is cloned: a read that stops inside a block, sometimes a seek
+    let mut x = vec![0u8; 1 + (splitmix(&mut s) % 100) as usize];
+    r.fill(&mut x);
+    if splitmix(&mut s) % 3 == 0 {
+        r.set_position(splitmix(&mut s) % 300);
+        r.fill(&mut x[..1]);
+    }
+    let seeds: Vec<u64> = (0..threads).map(|t| wseed.wrapping_mul(0x9E37_79B9).wrapping_add(t as u64 * 104729)).collect();
+    let solo: Vec<(Vec<Vec<u8>>, Vec<Vec<u8>>)> = seeds.iter().map(|sd| (clone_reader_program(r.clone(), *sd), clone_hasher_program(h.clone(), *sd))).collect();
+    let barrier = Arc::new(Barrier::new(threads));
+    let handles: Vec<_> = seeds
+        .iter()
+        .map(|sd| {
+            let (sd, b, rc, hc) = (*sd, barrier.clone(), r.clone(), h.clone());
+            std::thread::spawn(move || {
+                b.wait();
+                (clone_reader_program(rc, sd), clone_hasher_program(hc, sd))
+            })
+        })
+        .collect();
+    // the original keeps being used too
+    let mine = clone_reader_program(r.clone(), wseed);
+    for (t, hd) in handles.into_iter().enumerate() {
+        let got = hd.join().expect("thread panicked");
+        if got != solo[t] {
+            panic!("NOT-ISOLATED workload_seed={} thread={}: results of a clone used on its own thread differ from the solo run", wseed, t);
+        }
+    }
+    if mine != clone_reader_program(r.clone(), wseed) {
+        panic!("NOT-ISOLATED workload_seed={} original reader disturbed by its clones", wseed);
+    }
+    println!("ok clones workload_seed={} threads={}", wseed, threads);
+}
+
 /// C07 (unsafe Rust intrinsics): the pure build's SSE2 / SSE4.1 / AVX2 kernels interpreted by Miri, which checks
 /// every vector load and store for bounds, alignment requirements and initialisation. The level is forced through
 /// the detect() hook (it sits before the cfg(miri) short-circuit). Results must also equal the portable level.
@@ -196,6 +266,10 @@ fn main() {
     let threads: usize = args.get(2).and_then(|s| s.parse().ok()).unwrap_or(3);
     if args.get(3).map(|s| s.as_str()) == Some("join") {
         join_mode(wseed);
+        return;
+    }
+    if args.get(3).map(|s| s.as_str()) == Some("clones") {
+        clones_mode(wseed, threads.max(2));
         return;
     }
     if args.get(3).map(|s| s.as_str()) == Some("hammer") {
